@@ -629,6 +629,7 @@ void a_real_roll_back(a_real *p, a_size n)
 void a_real_roll_fore_(a_real *block_p, a_size block_n,
                        a_real *shift_p, a_size shift_n)
 {
+    if (!block_n) { return; }
     shift_n %= block_n;
     block_n -= shift_n;
     a_copy(shift_p, block_p, sizeof(a_real) * shift_n);
@@ -639,6 +640,7 @@ void a_real_roll_fore_(a_real *block_p, a_size block_n,
 void a_real_roll_back_(a_real *block_p, a_size block_n,
                        a_real *shift_p, a_size shift_n)
 {
+    if (!block_n) { return; }
     shift_n %= block_n;
     block_n -= shift_n;
     a_copy(shift_p, block_p + block_n, sizeof(a_real) * shift_n);
